@@ -705,8 +705,9 @@ class Element:
 
             up = self._validate(state, False)
             # an Unevaluated ascent validator does not override the results
-            # of descent validation
-            if up is not Unevaluated:
+            # of descent validation, and neither does a passing one override
+            # a failed descent
+            if up is not Unevaluated and self.valid:
                 self.valid = bool(up)
             return self.valid
 
